@@ -137,6 +137,10 @@ def attr_of(env, v, name):
         res = Coll(ai.target, [(z3.Or(acc[k][1]), acc[k][0]) for k in order])
         res.multi = getattr(v, 'multi', False) or ai.kind in ('ref', 'm2m')
         return res
+    if isinstance(v, SV) and v.sort == 'date' and name in ('year', 'month', 'day'):
+        env.undefined.append(v.n)                      # Python: 'NoneType' object has no attribute 'year'
+        k = v.t
+        return SV('int', {'year': k / 10000, 'month': (k / 100) % 100, 'day': k % 100}[name], v.n)
     if not isinstance(v, ERef): raise Unmodelled('attribute %s of a non-entity value' % name)
     info = S.ents[v.ent]
     ai = info.attrs.get(name)
@@ -647,6 +651,11 @@ def _call(node, env):
             if v.sort == 'bool': v = to_int(v)
             env.undefined.append(v.n)                      # Python: bad operand type for abs(): 'NoneType'
             return SV(v.sort, z3.If(v.t < 0, -v.t, v.t), v.n)
+        if name == 'date' and len(args) == 3:
+            parts = [as_data(ev(a_, env)) for a_ in args]
+            if not all(isinstance(x, SV) and x.sort == 'int' and z3.is_int_value(x.t) for x in parts): raise Unmodelled('date() of non-constant parts')
+            y, mo, d = [x.t.as_long() for x in parts]
+            return SV('date', z3.IntVal(y * 10000 + mo * 100 + d))
         if name == 'exists' and len(args) == 1:
             return truth(env, ev(args[0], env))
         if name == 'between' and len(args) == 3:
